@@ -105,8 +105,15 @@ def run_pm(ctx, alphabet, monitors, k_quick=3, k_thorough=4, n_random_quick=150,
         lout = pm.explore_listeners(ctx, lc, monitors)
         out['failures'].extend(lout['failures'])
         out['evaluations'] += lout['evaluations']
+        out['divergences'].extend(lout['divergences'])
+        out['traces_validated'] += lout['traces_validated']
+        out['distinct_nontrivial'] += lout['distinct_nontrivial']
         out['histograms']['listener_stream'] = dict(cases=lout['evaluations'], requests_issued_from_listeners=lout['listener_requests_issued'],
-                                                    note='impl-only: the model has no listener oracle; decided by the monitors')
+                                                    traces_validated_against_model=lout['traces_validated'],
+                                                    distinct_with_a_request_issued=lout['distinct_nontrivial'],
+                                                    divergences=len(lout['divergences']),
+                                                    note='decided by the monitors and compared after every op with the model with '
+                                                         'listeners (lean/PlumpyModel/PM/Listener.lean, `pmodel pml`)')
     if clause_filter is not None:
         out['failures'] = [f for f in out['failures'] if clause_filter(f)]
     out['rule'] = (f'every placement of <= {K} requests from {alphabet} between any two event-loop callbacks of each corpus program '
@@ -127,9 +134,9 @@ def replay_pm(ctx, failure, monitors):
     fails = []
     for m in monitors:
         fails.extend(pm.MONITORS[m](r))
-    lines = pm.prog_lines(prog) + r.ops
-    model = ctx.model.run('pm', lines)
-    res = dict(ops=r.ops, impl=r.obs, model=model[len(pm.prog_lines(prog)):] if model else None,
+    head = pm.listener_head(prog, plan) if plan else pm.prog_lines(prog)
+    model = ctx.model.run('pml' if plan else 'pm', head + r.ops)
+    res = dict(ops=r.ops, impl=r.obs, model=model[len(head):] if model else None,
                failures=[dict(signature=f['signature'], clause=f['clause'], detail=str(f['detail'])[:500]) for f in fails])
     r.close()
     return res
